@@ -147,6 +147,10 @@ def run(ctx):
     kept = [oc for val, oc, site in R.rows if val.get("used") is True]
     ck.ob("C05-R2", MOD + "remove_mapping", "never-lifts-a-key-a-remaining-mapping-outputs", not R.problems and kept and all(oc == "keep" for oc in kept),
           detail="; ".join(R.problems)[:200] or None)
+    # the scans exclude "the mapping being removed" by index (j != i): that is only the right mapping while
+    # active_mappings is untouched, i.e. the removal itself must come after the complete sweep
+    ck.ob("C05-R2", MOD + "remove_mapping", "`other-mappings`-means-all-but-the-removed-one(active_mappings-untouched-until-the-sweep-is-complete)", R.am_removed_after_sweep,
+          detail=None if R.am_removed_after_sweep else "active_mappings is modified before/inside the sweep: index i no longer names the mapping being removed when the still_used/still_shadowed scans run")
     nr = ctx.body(NR)
     swept = 0
     for h in sorted(nr.loops()):
